@@ -29,6 +29,8 @@ inductive Ev where
   | loadMeta (r : Rid)                -- reader: atomic_read(meta.json) → meta_j, j = latest
   | openFile (r : Rid) (p : Path)     -- reader: open_read of one segment component
   | release (r : Rid)                 -- reader: META_LOCK file removed
+  | warm (r : Rid)                    -- reader: every registered `Warmer::warm` returned Ok for
+                                      -- the new searcher (`warm_new_searcher_generation`)
   | publish (r : Rid)                 -- reader: ArcSwap::store of the new searcher
   | create (p : Path) (bytes : Nat)   -- writer: a segment file is written (not yet referenced)
   | saveMeta (files : List Path)      -- writer: SaveMeta j (j = number of metas saved before)
@@ -62,6 +64,8 @@ structure RState where
   /-- successful opens -/
   handles : List Handle := []
   failed : Bool := false
+  /-- the warmers have run on this reload's searcher -/
+  warmed : Bool := false
 deriving Repr
 
 structure St where
@@ -108,6 +112,7 @@ def step (s : St) : Ev → St
   | .release r =>
     { s with lock := if s.lock = some (.reader r) then none else s.lock,
              rs := upd s.rs r { s.rs r with phase := .released } }
+  | .warm r => { s with rs := upd s.rs r { s.rs r with warmed := true } }
   | .publish r =>
     match (s.rs r).j with
     | some j => { s with pubs := s.pubs ++ [(r, j)],
@@ -158,6 +163,7 @@ def ok (d : Disc) (s : St) : Ev → Bool
     if d.readerLock then
       s.lock = some (.reader r) && ((s.rs r).phase = .locked || (s.rs r).phase = .loaded)
     else (s.rs r).phase = .loaded
+  | .warm r => (s.rs r).phase = .released && !(s.rs r).failed
   | .publish r =>
     (s.rs r).phase = .released && !(s.rs r).failed &&
     (match (s.rs r).j with
@@ -196,9 +202,26 @@ def seqOk (ρ : Nat) (s : St) : Ev → Bool
 
 def sequential (ρ : Nat) (t : List Ev) : Bool := check (seqOk ρ) init t
 
+/-- reader `ρ` publishes only searchers on which its warmers have run
+-- mirrors: src/reader/mod.rs::create_searcher (`warm_new_searcher_generation(..)?` before `Ok(searcher)`)
+-- and ::reload (`create_searcher(..)?` before `searcher.store`) -/
+def warmOk (ρ : Nat) (s : St) : Ev → Bool
+  | .publish r => r.1 != ρ || (s.rs r).warmed
+  | _ => true
+
+def warmedBeforePublish (ρ : Nat) (t : List Ev) : Bool := check (warmOk ρ) init t
+
 /-- the `j`s published by reader `ρ`, in publication order -/
 def pubsOf (ρ : Nat) (s : St) : List Nat :=
   (s.pubs.filter (fun x => x.1.1 == ρ)).map (·.2)
+
+/-- what `IndexReader::searcher()` of reader `ρ` returns in state `s`: the `ArcSwap` holds the last
+published searcher (`none` only before the reader exists); the commit it shows -/
+def served (ρ : Nat) (s : St) : Option Nat := (pubsOf ρ s).getLast?
+
+/-- the reload whose searcher reader `ρ` currently serves -/
+def servedReload (ρ : Nat) (s : St) : Option Rid :=
+  ((s.pubs.filter (fun x => x.1.1 == ρ)).map (·.1)).getLast?
 
 /-- a present path that no saved meta references (an uncommitted segment's file) -/
 def uncommitted (s : St) (p : Path) : Prop := present s p = true ∧ ∀ fs ∈ s.metas, p ∉ fs
